@@ -335,6 +335,36 @@ func retypeEntries(r *core.Rng, d *gen.Dir) {
 			} else {
 				en.Val = gen.Val{Type: 9, U32: v.U32} // SLONG
 			}
+		case 5, 10: // RATIONAL, SRATIONAL: the same numbers as shorts, longs or bytes (same byte length)
+			if len(v.Rat) == 0 {
+				continue
+			}
+			switch r.Intn(4) {
+			case 3: // the other signedness
+				if v.Type == gen.TRational {
+					en.Val = gen.SRational(v.Rat...)
+				} else {
+					en.Val = gen.Rational(v.Rat...)
+				}
+			case 0:
+				var out []uint16
+				for _, q := range v.Rat {
+					out = append(out, uint16(q[0]>>16), uint16(q[0]), uint16(q[1]>>16), uint16(q[1]))
+				}
+				en.Val = gen.Short(out...)
+			case 1:
+				var out []uint32
+				for _, q := range v.Rat {
+					out = append(out, q[0], q[1])
+				}
+				en.Val = gen.Long(out...)
+			default:
+				var out []byte
+				for _, q := range v.Rat {
+					out = append(out, byte(q[0]>>24), byte(q[0]>>16), byte(q[0]>>8), byte(q[0]), byte(q[1]>>24), byte(q[1]>>16), byte(q[1]>>8), byte(q[1]))
+				}
+				en.Val = gen.ByteV(out...)
+			}
 		case gen.TByte:
 			if len(v.B) == 0 {
 				continue
@@ -357,10 +387,6 @@ func retypeEntries(r *core.Rng, d *gen.Dir) {
 					en.Val = gen.Long(uint32(v.B[0])<<24 | uint32(v.B[1])<<16 | uint32(v.B[2])<<8 | uint32(v.B[3]))
 				}
 			}
-		case gen.TRational:
-			en.Val = gen.SRational(v.Rat...)
-		case gen.TSRational:
-			en.Val = gen.Rational(v.Rat...)
 		}
 	}
 }
